@@ -71,7 +71,7 @@ theorem truncated_seq {p : Prims} (W : Laws p) (ops : List (Op p)) :
           simp only [Prod.mk.injEq] at this
           obtain ⟨h1, h2, h3⟩ := this
           subst h1; subst h2; subst h3
-          obtain ⟨o', c, body, hd, hrun, hmsg, _, hp'⟩ := roundtrip1 W hp hsm (w1 ++ t)
+          obtain ⟨o', c, body, hd, hrun, hmsg, _, hp', _⟩ := roundtrip1 W hp hsm (w1 ++ t)
           have hseq' : o.st.seq = nextSeq s.seq := by
             obtain ⟨_, _, _, _, _, _, _, _, hst⟩ := sendMessage_ok hsm
             rw [hst]
